@@ -144,6 +144,61 @@ def simfile_props(k0: int, v0: str, v1: str, n0: bool, ncharts: int, alias: bool
     return _check_roundtrip(sf)
 
 
+CHART_OPS = 11
+
+
+def chart_edit_after_serialize(op: int, k: int, v: str, pre_ser: bool, on_simfile: bool) -> bool:
+    """
+    pre: 0 <= op < CHART_OPS and 0 <= k <= 2 and len(v) <= L2
+    post: _
+    """
+    # a chart (or the simfile's own mapping) that may already have been serialized once is edited through the mapping API -
+    # including the operations that do not go through __setitem__/__delitem__ (move_to_end, pop, popitem, setdefault,
+    # update, clear) - and must still round-trip as it stands now
+    sf = SSCSimfile(string="")
+    sf["VERSION"] = "0.83"
+    sf["TITLE"] = "t"
+    sf["ARTIST"] = "a"
+    ch = SSCChart()
+    for key, val in (("STEPSTYPE", "dance-single"), ("CREDIT", "c"), ("NOTES", "0000"), ("CHARTSTYLE", "s")):
+        ch[key] = val
+    sf.charts.append(ch)
+    if pre_ser:
+        record(sf)
+    m = sf if on_simfile else ch
+    key = (["VERSION", "TITLE", "ARTIST"] if on_simfile else ["STEPSTYPE", "CREDIT", "CHARTSTYLE"])[k]
+    if op == 0:
+        m.move_to_end(key)
+    elif op == 1:
+        m.move_to_end(key, last=False)
+    elif op == 2:
+        m.pop(key)
+    elif op == 3:
+        if on_simfile or True:
+            last = next(reversed(m))
+            if last not in ("NOTES",):
+                m.popitem()
+    elif op == 4:
+        m.popitem(last=False)
+    elif op == 5:
+        m.setdefault("ZZFRESH", v)
+    elif op == 6:
+        m.update({key: v, "ZZFRESH": v})
+    elif op == 7:
+        m[key] = v
+    elif op == 8:
+        del m[key]
+    elif op == 9:
+        if not on_simfile:
+            m.move_to_end("NOTES", last=False)
+    else:
+        items = [(a, b) for a, b in m.items()]
+        m.clear()
+        for a, b in reversed(items):
+            m[a] = v if a == key else b
+    return _check_roundtrip(sf)
+
+
 def chart_from_str_path(npos: int, nk: bool, v0: str, notes: str, a0: bool) -> bool:
     """
     pre: 0 <= npos <= 2 and len(v0) <= L2 and len(notes) <= L2
